@@ -779,6 +779,8 @@ def d3_constants(ctx, idx, env):
             r.note('additional default variables (not alarms): %s' % sorted(extra))
         sb = tables.class_table(idx, 'mitxgraders.formulagrader.integralgrader.SummationGraderBase', 'default_variables')
         lost = [k for k in CONSTANT_SPEC if sb.get(k) is None or not tables.values_equal(tables.term_value(sb.get(k)), CONSTANT_SPEC[k])]
+        if any(sb.get(k) is not None and not tables.is_literal(tables.term_value(sb.get(k))) for k in CONSTANT_SPEC):
+            raise AnalysisError('SummationGraderBase.default_variables has non-literal values')
         r.check(not lost, 'SummationGraderBase.default_variables', 'keeps i, j, e, pi (adds infty)',
                 'the summation graders lose or change the constants %s' % sorted(lost), sb.loc())
 
@@ -957,7 +959,16 @@ def d4_decorator(ctx, idx, env):
         # the paths that return func(*args) must carry their negations (this sees through a message variable, a flag
         # variable, temporaries such as num_args and helpers that were inlined)
         b = {'_ARGS': ast.Name(id=args, ctx=ast.Load())}
-        all_paths = [p for p in nf.decision_paths(node.body) if _feasible(p)]
+        all_paths = nf.decision_paths(node.body)
+        flag_env = {}
+        for outer in (mk, dec):
+            for k_, v_ in lib.local_env(outer.node).items():
+                if isinstance(v_, (ast.Compare, ast.BoolOp)) or (isinstance(v_, ast.UnaryOp) and isinstance(v_.op, ast.Not)):
+                    flag_env[k_] = v_
+        for p_ in all_paths:
+            # names bound once in the enclosing functions (closure variables such as `variable_length = min_length is not None`)
+            p_.guards = [nf.canon(nf.subst(g, flag_env)) for g in p_.guards]
+        all_paths = [p for p in all_paths if _feasible(p)]
         ae_paths = [p for p in all_paths if p.leaf.kind == 'raise' and nf.exc_class_name(p.leaf.expr) == 'ArgumentError']
         call_paths = [p for p in all_paths if p.leaf.kind == 'ret' and isinstance(p.leaf.expr, ast.Call)
                       and isinstance(p.leaf.expr.func, ast.Name) and p.leaf.expr.func.id == wrapped]
@@ -1643,5 +1654,14 @@ BENIGN = [
            "MULTI_SCALAR_FUNCTIONS = {}\nfor _name, _f in zip(('min', 'max'), (min, max)):\n    MULTI_SCALAR_FUNCTIONS[_name] = has_at_least_2_scalar_inputs(_name)(_f)"),
     Benign('constants-by-dict-zip', MF, "DEFAULT_VARIABLES = {\n    'i': complex(0, 1),\n    'j': complex(0, 1),\n    'e': np.e,\n    'pi': np.pi\n}",
            "DEFAULT_VARIABLES = dict(zip(('i', 'j', 'e', 'pi'), (complex(0, 1), complex(0, 1), np.e, np.pi)))"),
+    Benign('constants-fromkeys-update', MF, "DEFAULT_VARIABLES = {\n    'i': complex(0, 1),\n    'j': complex(0, 1),\n    'e': np.e,\n    'pi': np.pi\n}",
+           "DEFAULT_VARIABLES = dict.fromkeys(('i', 'j'), complex(0, 1))\nDEFAULT_VARIABLES.update((name, getattr(np, name)) for name in ('e', 'pi'))"),
+    Benign('multi-scalar-keyed-by-name', MF, "MULTI_SCALAR_FUNCTIONS = {\n    'min': has_at_least_2_scalar_inputs('min')(min),\n    'max': has_at_least_2_scalar_inputs('max')(max)\n}",
+           "MULTI_SCALAR_FUNCTIONS = {func.__name__: has_at_least_2_scalar_inputs(func.__name__)(func)\n                          for func in (min, max)}"),
+    Benign('scalar-table-loop-with-del', MF, "SCALAR_FUNCTIONS = {key: has_one_scalar_input(key)(ELEMENTWISE_FUNCTIONS[key])\n                    for key in ELEMENTWISE_FUNCTIONS}\n",
+           "SCALAR_FUNCTIONS = {}\nfor _name, _elementwise in ELEMENTWISE_FUNCTIONS.items():\n    SCALAR_FUNCTIONS[_name] = has_one_scalar_input(_name)(_elementwise)\ndel _name, _elementwise\n"),
+    Benign('decorator-variable-length-flag', SD,
+           "        # can't use @wraps, func might be a numpy ufunc\n        def decorator(func):\n            func_name = display_name if display_name else func.__name__\n\n            @wraps(func)\n            def _func(*args):\n                # Set up the schemas and shapes for validation.\n                # Also check the number of arguments provided is correct.\n                # Use the same response as in validate_function_call in expressions.py\n                msg = ''\n                if min_length is not None:",
+           "        variable_length = min_length is not None\n\n        def decorator(func):\n            func_name = display_name if display_name else func.__name__\n\n            @wraps(func)\n            def _func(*args):\n                msg = ''\n                if variable_length:"),
     Benign('kronecker-else', MF, "    if x == y:\n        return 1\n    return 0", "    if x != y:\n        return 0\n    else:\n        return 1"),
 ]
